@@ -324,6 +324,13 @@ def m3_lin(ctx, al, rng, count, recs, meta):
         fn = fpoly(rng.choice([0, 0, -5]), 8, False)
         fd = fpoly(0, 5, True)
         neg = any(p < 0 and p.denominator != 1 for p, _ in fn + fd)
+        taps = {}
+        for p, c in fd:                      # (from the inputs: a denominator that cancels entirely is no filter)
+            lo = p.numerator // p.denominator
+            for j, wgt in ((lo, 1 - (p - lo)), (lo + 1, p - lo)):
+                taps[j] = taps.get(j, 0) + c * wgt
+        if not any(taps.values()):
+            continue
 
         def key(p):
             return int(p) if p.denominator == 1 and rng.random() < 0.8 else float(p)
